@@ -364,6 +364,21 @@ func (c *SpecCtx) call(e *ast.CallExpr) TT {
 				}
 			}
 			c.failf("addr(): no field %s", se.Sel.Name)
+		case "invkept":
+			// invkept(T): every object of struct type T whose type invariant held in the old state
+			// still satisfies it (the callee preserves the invariant of ALL objects of that type)
+			if c.old == nil {
+				c.failf("invkept() needs an old state")
+			}
+			ty := c.resolveType(e.Args[0])
+			pt := types.NewPointer(ty)
+			q := mk(SInt, "q_invp")
+			before := c.ex.typeInv(c.old, pt, q)
+			after := c.ex.typeInv(c.st, pt, q)
+			if before.S == after.S {
+				return TT{T: tTrue, Ty: boolT}
+			}
+			return TT{T: mk(SBool, fmt.Sprintf("(forall ((q_invp Int)) (=> %s %s))", before.S, after.S)), Ty: boolT}
 		case "nvisited":
 			// nvisited(): number of keys produced so far by the (single) map iteration in scope
 			for name, g := range c.st.ghosts {
